@@ -784,6 +784,29 @@ def explain_description(
         'is_unknown': False,
     }
 
+    # With a .rules file loaded, ask the engine that `tally up` classifies with (as
+    # normalize_merchant does): it knows the rule mode, global variables, let: bindings and
+    # merchant: names, which the flattened rule tuples below do not carry
+    if _cached_engine is not None:
+        engine_result = _cached_engine.match(transaction)
+        if engine_result.matched:
+            matched = engine_result.matched_rule
+            result['matched_rule'] = {
+                'pattern': matched.match_expr if matched else None,
+                'source': 'user',
+                'matched_on': 'transformed' if transformed_desc != description else 'original',
+                'tags': sorted(matched.tags) if matched else [],
+            }
+            result['merchant'] = engine_result.merchant
+            result['category'] = engine_result.category
+            result['subcategory'] = engine_result.subcategory
+            return result
+        result['is_unknown'] = True
+        result['merchant'] = extract_merchant_name(transformed_desc)
+        result['category'] = 'Unknown'
+        result['subcategory'] = 'Unknown'
+        return result
+
     # Try pattern matching against transformed description
     desc_upper = transformed_desc.upper()
 
